@@ -556,6 +556,7 @@ type creds struct {
 	tokShape               int // rejected tokens: 0 opaque, 1 JWT of a foreign issuer, 2 JWT naming the trusted issuer
 	accept                 int // index into acceptValues
 	sibling                int // index into siblingCookies: another cookie sent along with the session cookie
+	bodySibling            int // index into siblingParams: another parameter in the form body next to the credential
 	scheme                 int // spelling of the Basic scheme (case-insensitive per RFC 9110): Basic, basic, BASIC
 }
 
@@ -580,6 +581,9 @@ func (c creds) query() string {
 	return "?" + strings.Join(parts, "&")
 }
 
+// other form fields travel in the same body; browsers and scripts do not always escape them by the book
+var siblingParams = []string{"", "note=fine", "comment=100%+sure", "a=b;c=d", "tail=%"}
+
 // body returns the form body carrying those credentials which travel there ("" = no body).
 func (c creds) body() string {
 	var parts []string
@@ -589,6 +593,13 @@ func (c creds) body() string {
 	}
 	if c.token != 0 && c.tokVia == 3 {
 		parts = append(parts, "tok_b="+url.QueryEscape(h["X-Token"]))
+	}
+	if len(parts) > 0 && siblingParams[c.bodySibling] != "" {
+		if c.bodySibling%2 == 0 {
+			parts = append([]string{siblingParams[c.bodySibling]}, parts...)
+		} else {
+			parts = append(parts, siblingParams[c.bodySibling])
+		}
 	}
 	return strings.Join(parts, "&")
 }
@@ -610,7 +621,7 @@ func (c creds) headers() map[string]string {
 var credNames = []string{"none", "valid", "invalid", "malformed"}
 
 func (c creds) String() string {
-	return fmt.Sprintf("basic=%s"+[]string{"", "(basic)", "(BASIC)"}[c.scheme]+" jwt=%s/%d token=%s/%d/%d sess=%s+%q accept=%q", credNames[c.basic], credNames[c.jwt], c.jwtVia, credNames[c.token], c.tokVia, c.tokShape, credNames[c.sess], siblingCookies[c.sibling], acceptValues[c.accept])
+	return fmt.Sprintf("basic=%s"+[]string{"", "(basic)", "(BASIC)"}[c.scheme]+" jwt=%s/%d token=%s/%d/%d sess=%s+%q body+%q accept=%q", credNames[c.basic], credNames[c.jwt], c.jwtVia, credNames[c.token], c.tokVia, c.tokShape, credNames[c.sess], siblingCookies[c.sibling], siblingParams[c.bodySibling], acceptValues[c.accept])
 }
 
 func (c creds) allHeaders() map[string]string {
@@ -954,6 +965,9 @@ func pipeSim(r *simcore.Run) {
 			c.tokShape = s.Draw(3, "token-shape")
 		}
 		c.accept = []int{0, 0, 0, 1, 2, 3, 4, 5}[s.Draw(8, "accept")]
+		if c.jwtVia == 3 || c.tokVia == 3 {
+			c.bodySibling = []int{0, 0, 1, 2, 3, 4}[s.Draw(6, "sibling-form-field")]
+		}
 		if c.basic == 1 || c.basic == 2 {
 			c.scheme = []int{0, 0, 1, 2}[s.Draw(4, "scheme-spelling")]
 		}
